@@ -27,6 +27,18 @@ CLAIMS["C23"] = {
     "note": TB + "Name validity is modelled on chars (bytes ≥ 0x80 are never name bytes). IndexMap lookup is modelled as association-list lookup.",
 }
 
+CLAIMS["C31"] = {
+    "technique": "Lean 4 proof (transition system over atomic steps, all schedules) + translator-regenerated constants/shape + correspondence",
+    "text": "Theorems: for any number of threads and ANY schedule of atomic steps, while fewer than 2^63-INITIAL allocations have run the ids "
+            "handed out are exactly the successive counter values, hence pairwise distinct, never 0/BUILT_IN/NONE and never tagged "
+            "(ids_are_counter_values, ids_distinct, ids_not_reserved); pack/unpack returns tag and id for every id < 2^63 (pack_unpack, "
+            "pack_nonzero, pack_none_iff) with real |||/&&& on naturals. INITIAL, TAG, reserved ids and the RMW shape of FileId::new are "
+            "regenerated from parser.rs each run (a load+store rewrite makes rmw_shape fail; non_rmw_collides is the model-level witness). "
+            "Correspondence: pack on boundary+random ids and sequential allocation from preset counters incl. the wrap/reset path through "
+            "cfg hooks. The shared-schema clause (threads vs sequential) and real concurrent allocation are explored on the implementation only.",
+    "note": TB + "The memory model is reduced to 'an atomic RMW is one indivisible step'; OnceLock/Sync/Send of shared schemas and OS scheduling are runtime facts, explored with real threads (2-16) not proved.",
+}
+
 ALL = [f"C{i:02d}" for i in range(1, 34)]
 NOT_APPLICABLE = {p: "check not built yet in this session (planned, see DESIGN.md §9); not a claim that the technique cannot apply"
                   for p in ALL if p not in CLAIMS}
